@@ -4,7 +4,8 @@ cd "${VERIF_REPO:-/repo}" || exit 2
 export GOFLAGS=-mod=mod GOPROXY=off
 unset GOSUMDB
 out=$(mktemp)
-go test -json -vet=off -count=1 -timeout 25m ./... > "$out" 2>/dev/null
+# cmd/keymasterd tests listen on a fixed port: serialise with the harness runs
+flock /tmp/.verif-gotest.lock go test -json -vet=off -count=1 -timeout 25m ./... > "$out" 2>/dev/null
 python3 - "$out" <<'PY'
 import json,sys
 passed=set()
